@@ -4,15 +4,35 @@ import json, sys
 ALL = ["C%02d" % i for i in range(1, 21)]
 PENDING = "check under construction in this session; will be claimed once it runs quietly on the unchanged tree"
 # id -> (level, technique, level text, level note, design ref)
+HIST = "stateful property-based testing (proptest): generated operation histories executed on the real contracts in cw-multi-test, "
+TB = "cw-multi-test 0.13.4 simulates the chain; reference arithmetic in Uint256; generated histories are a sample, not an enumeration"
 CLAIMED = {
  "C01": ("exploration", "stateful property-based testing (proptest): generated swap histories against the real vAMM entry points, invariant oracle over the history in 256-bit arithmetic",
          "generated reserve pairs and swap_input/swap_output histories (incl. return-to-earlier-position swaps) are executed through the vAMM's instantiate/execute/query; scaled product monotonicity, base+net-position conservation and the return clause are recomputed independently after every accepted swap",
-         "mock dependencies stand in for the chain; return clause asserted only while base reserve >= 1 unit (see DESIGN C01)",
-         "DESIGN.md §3 C01"),
+         "mock dependencies stand in for the chain; return clause asserted only while base reserve >= 1 unit (see DESIGN C01)", "DESIGN.md §3 C01"),
+ "C02": ("exploration", HIST + "invariant oracle after every transaction",
+         "after every transaction of generated multi-trader histories (incl. directed whale trades, squeezes to the maintenance boundary, funding, liquidations) the sum of engine position sizes is compared with the vAMM's net position", TB, "DESIGN.md §3 C02"),
+ "C03": ("exploration", HIST + "balance-conservation and recipient oracle over all known accounts",
+         "balances of every known account are read around every transaction (cw20 and native collateral): total conserved, only sender/engine/fund/fee pool may change, liquidated trader unchanged", TB, "DESIGN.md §3 C03"),
+ "C04": ("exploration", HIST + "reference-model oracle (exact equity) on every close",
+         "for every successful close the payout is recomputed as margin + realised PnL - funding owed from observable pre-state and compared with the dispatched engine->trader transfers; fund outflow is bounded by the recorded bad debt", TB, "DESIGN.md §3 C04"),
+ "C05": ("exploration", HIST + "reference-model oracle (margin ratio, free collateral, margin bookkeeping)",
+         "post-open margin ratio (engine answer and independent recomputation) >= maintenance, leverage bounds incl. exact boundary values, withdraw/deposit bookkeeping to the raw unit", TB, "DESIGN.md §3 C05"),
+ "C06": ("exploration", HIST + "reference-model oracle (liquidation ratio with spot/TWAP/oracle choice, payout split)",
+         "every successful liquidation is compared with an independently recomputed pre-state margin ratio and exact payout split; histories are steered to the maintenance boundary by bisection", TB, "DESIGN.md §3 C06"),
+ "C07": ("exploration", HIST + "one-step liveness oracle with explicitly evaluated preconditions; known findings excluded by signature",
+         "whenever the stated preconditions hold in the pre-state a Liquidate by a generated caller must succeed; mock and real price feed flavours; two genuine defects (F1, F2) are listed as known findings, two (F3, F3c) were repaired", TB + "; the fund-size precondition is a conservative sufficient bound", "DESIGN.md §3 C07"),
+ "C08": ("fault_enumeration", "fault injection inside generated histories: every sub-message of every generated engine transaction is failed once (exhaustive per transaction), full raw storage dump compared",
+         "within each generated transaction every node of the message tree is faulted once and the complete key/value dump of the chain store must equal the pre-state; pre-states and operations are sampled by proptest", "crash points = sub-message boundaries of cw-multi-test; panics count as failed transactions", "DESIGN.md §3 C08"),
+ "C10": ("exploration", HIST + "non-interference oracle on all traders' positions + query battery with dump comparison",
+         "positions of all traders are compared field by field around every transaction; all query variants are issued periodically and must not change the dump", TB, "DESIGN.md §3 C10"),
+ "C11": ("exploration", HIST + "reference-model oracle (premium fraction, schedule, transfers, per-position charge)",
+         "every successful settlement is recomputed from TWAP answers read in the pre-state; per-position funding charges on owner trades and reversals are recomputed exactly", TB, "DESIGN.md §3 C11"),
+ "C12": ("exploration", HIST + "reference-model oracle on dispatched fee transfers",
+         "fee transfers into fund and fee pool are taken from the instrumented token/bank and compared with floor(n*ratio/D) resp. the vAMM's CalcFee answer", TB, "DESIGN.md §3 C12"),
  "C19": ("exploration", "property-based testing (proptest): generated operand pairs vs exact 256-bit reference arithmetic",
          "every public operation of Integer is compared with exact sign-magnitude big-integer arithmetic on generated operand pairs biased to zero, equal magnitudes and the 128-bit boundary; the space (2^258 pairs) cannot be enumerated, so this is search, not proof",
-         "trusts cosmwasm_std::Uint256 arithmetic used by the reference; values are interpreted as (-1)^negative * value",
-         "DESIGN.md §3 C19"),
+         "trusts cosmwasm_std::Uint256 arithmetic used by the reference; values are interpreted as (-1)^negative * value", "DESIGN.md §3 C19"),
 }
 NOT_APPLICABLE = {}
 
